@@ -283,6 +283,23 @@ def f_cli_050100_garbage(ctx):
     return {"did": "05 01 00, then 41 garbage bytes", "greeting_reply": r.hex(), "client_reaction": st}
 
 
+def mk_cli_stalled(prefix, label):
+    """a local peer that connects to the client and stalls its handshake (sends nothing / only part of it): the client must go
+    on serving others MEANWHILE (canary while the stalled connection is held)"""
+    def f(ctx):
+        t0 = time.monotonic()
+        s = _tcp(ctx.client_addr())
+        if prefix:
+            s.sendall(prefix)
+        time.sleep(0.3)
+        c, problems = _during(ctx, [s], "a local connection stalled in its handshake (%s)" % label)
+        t_canary = time.monotonic() - t0
+        s.close()
+        return {"did": "local connection, %s, then silence; canary at 0.3 s while it is held" % label, "canary_during": c,
+                "canary_finished_at_s": round(t_canary, 2), "problems": problems}
+    return f
+
+
 def _failing_socks5(ctx, host, port, atyp):
     s, reply = T.socks5_connect(ctx.dep.client_port, host, port, atyp, timeout=ctx.deadline)
     try:
@@ -450,6 +467,9 @@ def catalogue():
     c["cli_socks5_unresolvable"] = (f_cli_socks5_unresolvable, every, None)
     c["cli_socks5_refused"] = (f_cli_socks5_refused, every, None)
     c["cli_http_origin_form"] = (f_cli_http_origin_form, every, None)
+    c["cli_stalled_silent"] = (mk_cli_stalled(b"", "nothing sent"), every, None)
+    c["cli_stalled_socks5_greeting"] = (mk_cli_stalled(b"\x05", "only the first byte of a SOCKS5 greeting"), every, None)
+    c["cli_stalled_http_line"] = (mk_cli_stalled(b"CONNECT exam", "half an HTTP request line"), every, None)
     cu = lambda cfg: cfg["udp"]                              # noqa: E731
     for n in (0, 1, 3, 4, 5, 7, 9):
         c["cli_udp_len_%d" % n] = (mk_cli_udp_len(n), cu, None)
